@@ -15,7 +15,7 @@ META = dict(
     id='C10',
     level='proof',
     technique='Coq proof (price map / price graph model refined to "latest entry not after D, later insertion wins a tie", reciprocal, product along the unique path) + differential correspondence of the extracted model against ledger',
-    level_text='Theorems in coq/Properties/Properties_C10.v state, for all price histories (any number of entries, any insertion order, any moments) and all valuation moments, that the model of commodity_history_impl_t selects per commodity pair exactly the latest entry not after D (a later insertion replacing an earlier one at the same moment, nothing when every entry is later), that entries dated after D never influence an edge or a conversion, that a reversed quote is used as its reciprocal and a chain as the product along the unique path, that a converted amount is exactly price times quantity and that an amount without applicable price stays as it is; the memoising lookup equals the plain lookup for every interleaving of lookups and price recordings (so lookups made by expressions evaluated while the journal is read cannot change a report). The model is tied to the code by running generated journals through freshly built ledger (bal/reg -X/-V, prices, pricedb; exact num/den through the verif_rational hook) and the extracted model and comparing every row.',
+    level_text='Theorems in coq/Properties/Properties_C10.v state, for all price histories (any number of entries, any insertion order, any moments) and all valuation moments, that the model of commodity_history_impl_t selects per commodity pair exactly the latest entry not after D (a later insertion replacing an earlier one at the same moment, nothing when every entry is later), that entries dated after D never influence an edge or a conversion, that a reversed quote is used as its reciprocal and a chain as the product along the unique path, that a converted amount is exactly price times quantity and that an amount without applicable price stays as it is; the memoising lookup equals the plain lookup for every interleaving of lookups and price recordings (so lookups made by expressions evaluated while the journal is read cannot change a report); that rests on the source fact, re-read from commodity.cc on every run (Gen/PriceMemo.v), that recording or removing a price clears the memo of every commodity. The model is tied to the code by running generated journals through freshly built ledger (bal/reg -X/-V, prices, pricedb; exact num/den through the verif_rational hook) and the extracted model and comparing every row.',
     level_note='Trusted: Coq kernel; extraction + OCaml driver and the python harness for the correspondence; GMP modelled as Q. Priced pairs form a forest (unique paths): the choice Dijkstra makes among several paths is not modelled nor claimed. Fixated lot prices ({=..}), value expressions on commodities, price download (-Q) and a default commodity (D directive) are outside the model.',
     design_ref='DESIGN.md section 7 C10',
     assumptions=['the priced commodity pairs of a journal form a forest (the quantifier of the property: an edge, a reversed edge or a simple chain)',
@@ -72,7 +72,11 @@ class Journal:
        ('I', day, xq, xdec, xc, yq, ydec, yc, n)               two commodities, no cost (implied)
        ('H', day, [(q, dec, c)], n)                           holdings, one account per commodity
        ('W', day, q, dec, c, n)                               a posting to W:w (register observations)
-       ('L', src, tgt, day)                                   `check market(..)`: a parse-time lookup"""
+       ('L', src, tgt, day[, form, n])                        a price look-up made while the journal is read:
+                                                              form = check | assert | amount (a posting whose amount is
+                                                              the expression market(..) * 0) | auto (an automated
+                                                              transaction whose predicate calls market(): evaluated after
+                                                              every later transaction)"""
 
     def __init__(self):
         self.elems = []
@@ -113,14 +117,28 @@ class Journal:
                 _, day, q, dec, c, n = e
                 out += ['%s w%d' % (dstr(day), n), '    W:w    %s' % atext(q, dec, c), '    E:w', '']
             elif k == 'L':
-                _, src, tgt, day = e
-                out.append("check market('%s', [%s], '%s') > 0" % (src, dstr(day), tgt))
+                src, tgt, day = e[1:4]
+                form = e[4] if len(e) > 4 else 'check'
+                mk = "market('%s', [%s], '%s')" % (src, dstr(day), tgt)
+                if form == 'check':
+                    out.append('check %s > 0' % mk)
+                elif form == 'assert':
+                    out.append('assert %s == %s' % (mk, mk))
+                elif form == 'amount':
+                    out += ['%s v%d' % (dstr(BASE - 10), e[5]), '    V:a%d    (%s * 0)' % (e[5], mk), '    V:b%d' % e[5], '']
+                else:
+                    out += ['= expr "(%s > 0) & (account =~ /^ZZnever/)"' % mk, '    (Auto)    1 QQQ', '']
         return '\n'.join(out) + '\n'
 
     def items_sx(self, lookups=False):
         its = []
+        autos = []          # look-ups of automated transactions: repeated after every later transaction
         for e in self.elems:
             k = e[0]
+            if lookups and (k in ('C', 'I', 'H', 'W') or (k == 'L' and len(e) > 4 and e[4] == 'amount')):
+                self_autos = list(autos)
+            else:
+                self_autos = []
             if k == 'P':
                 _, when, src, q, dec, tgt = e
                 its.append(['P', when, src.encode(), q.numerator, q.denominator, tgt.encode()])
@@ -132,8 +150,13 @@ class Journal:
                 _, day, xq, xdec, xc, yq, ydec, yc, n = e
                 its.append(['I', day, xq.numerator, xq.denominator, xc.encode(), yq.numerator, yq.denominator, yc.encode()])
             elif k == 'L' and lookups:
-                _, src, tgt, day = e
-                its.append(['L', src.encode(), tgt.encode(), day * 86400])
+                src, tgt, day = e[1:4]
+                if len(e) > 4 and e[4] == 'auto':
+                    autos.append(['L', src.encode(), tgt.encode(), day * 86400])
+                else:
+                    its.append(['L', src.encode(), tgt.encode(), day * 86400])
+            if lookups:
+                its += self_autos     # journal_t::add_xact: finalize (records the costs), then extend_xact
         return its
 
     def postings(self):
@@ -156,6 +179,9 @@ class Journal:
                     ps.append(('H:%d' % i, day, q, c, None))
                 for q, dec, c in hs:
                     ps.append(('E:h', day, -q, c, None))
+            elif k == 'L' and len(e) > 4 and e[4] == 'amount':
+                ps.append(('V:a%d' % e[5], BASE - 10, F(0), e[2], None))
+                ps.append(('V:b%d' % e[5], BASE - 10, F(0), e[2], None))
             elif k == 'W':
                 _, day, q, dec, c, n = e
                 ps.append(('W:w', day, q, c, None))
@@ -288,6 +314,93 @@ def gen_journal(rng, memo=False, multi=False):
             src = rng.choice([c for c in (comms[:n] if rng.random() < 0.8 else comms) if c != j.memo_t])
             pos = rng.randrange(len(j.elems) + 1) if rng.random() < 0.5 else rng.randrange(len(j.elems) // 2 + 1)
             j.elems.insert(pos, ('L', src, j.memo_t, j.memo_day))
+    return j
+
+
+def gen_interleaved(rng, idx):
+    """Look-ups interleaved with price entries: a chain c0 - c1 - .. - cn (2-4 links), every link
+    quoted early; then look-ups of a conversion that runs through intermediate commodities, made
+    while the journal is read (check / assert / amount expression / automated transaction); then a
+    LATER quote (a P line or a posting cost, dated on or before the looked-up moment) on one link -
+    the first, a middle or the last one, by turns - possibly more look-ups and more quotes.  The
+    report values at the looked-up moment and at others."""
+    j = Journal()
+    j.explicit_time = set()
+    nl = [2, 3, 4, 2, 3, 4, 2, 3][idx % 8]
+    comms = rng.sample(SYMS, nl + 1)
+    j.comms = comms
+    links = [(comms[i], comms[i + 1]) for i in range(nl)]
+    early = sorted(rng.sample(range(BASE + 3, BASE + 20), rng.choice([1, 2, 3])))
+    later = sorted(rng.sample(range(BASE + 25, BASE + 60), rng.choice([1, 2, 3])))
+    dm = rng.choice([later[-1], later[-1], later[-1] + 5, later[-1] + 30])
+    j.days = early + later
+    j.shape = 'interleaved-%d-links' % nl
+
+    def quote(link, day, cn):
+        a, b = link
+        if rng.random() < 0.5:
+            a, b = b, a
+        if rng.random() < 0.75:
+            q, dec = rq(rng, 1, 9999)
+            return ('P', day * 86400 + rng.choice([0, 0, 0, 0, 1, 43200]), a, q, dec, b)
+        aq, adec = rq(rng, 1, 999, (0, 0, 1, 2))
+        if rng.random() < 0.3:
+            aq = -aq
+        cq, cdec = rq(rng, 1, 9999, (0, 1, 2, 3))
+        return ('C', day, aq, adec, a, rng.random() < 0.4, cq, cdec, b, False, cn)
+
+    def lookup(n):
+        # a conversion across at least two links whenever the chain allows it
+        i = rng.randrange(0, nl - 1)
+        k = rng.randrange(i + 2, nl + 1)
+        src, tgt = (comms[i], comms[k]) if rng.random() < 0.5 else (comms[k], comms[i])
+        if rng.random() < 0.6:
+            src, tgt = (comms[0], comms[nl]) if rng.random() < 0.5 else (comms[nl], comms[0])
+        return ('L', src, tgt, dm, rng.choice(['check', 'check', 'assert', 'amount', 'auto']), n)
+
+    cn = 0
+    elems = []
+    incomplete = rng.random() < 0.2       # one link is not quoted yet when the first look-up is made
+    missing = rng.randrange(nl) if incomplete else None
+    first = []
+    for li, link in enumerate(links):
+        if li == missing:
+            continue
+        for _ in range(rng.choice([1, 1, 2])):
+            cn += 1
+            first.append(quote(link, rng.choice(early), cn))
+    rng.shuffle(first)
+    elems += first
+    ln = 0
+    which = [0, nl - 1, nl // 2, rng.randrange(nl)][(idx // 8) % 4]      # first / last / middle / any link
+    rounds = rng.choice([1, 1, 2, 3])
+    for r in range(rounds):
+        for _ in range(rng.choice([1, 1, 2])):
+            ln += 1
+            elems.append(lookup(ln))
+        li = missing if (r == 0 and incomplete) else (which if r == 0 else rng.randrange(nl))
+        for _ in range(rng.choice([1, 1, 2])):
+            cn += 1
+            day = rng.choice(later + ([dm] if rng.random() < 0.2 else []) + ([dm + 2] if rng.random() < 0.1 else []))
+            elems.append(quote(links[li], day if not (r == 0 and incomplete) else rng.choice(early + later), cn))
+    if rng.random() < 0.3:
+        ln += 1
+        elems.append(lookup(ln))
+    hs = []
+    for c in comms:
+        q, dec = rq(rng, 1, 99999, (0, 0, 1, 2, 3))
+        hs.append((q, dec, c))
+    pos = rng.randrange(len(elems) + 1)
+    elems.insert(pos, ('H', BASE - 20, hs, 0))
+    cand = sorted({d + o for d in j.days for o in (-1, 0, 1)} | {dm, dm + 1, dm - 1})
+    for i in range(rng.choice([1, 2, 3])):
+        q, dec = rq(rng, 1, 999, (0, 1, 2))
+        elems.insert(rng.randrange(len(elems) + 1), ('W', rng.choice(cand), q, dec, rng.choice(comms), i))
+    j.elems = elems
+    j.cand = cand
+    j.v_days = cand
+    j.memo_day = dm
+    j.memo_ts = sorted({e[2] for e in elems if e[0] == 'L'})
     return j
 
 
@@ -610,7 +723,9 @@ def show_h(d):
 def run(ctx, n_override=None):
     rng = ctx.rng
     res = lib.Result()
-    res.rule = ('journals of 1-30 recorded prices (P lines with and without time of day, per-unit / total / virtual / zero '
+    res.rule = ('(plus: journals whose check / assert / amount-expression / automated-transaction look-ups are interleaved '
+                'with the quotes of a 2-4 link chain, a later quote on the first, a middle or the last link) '
+                'journals of 1-30 recorded prices (P lines with and without time of day, per-unit / total / virtual / zero '
                 'costs, implied two-commodity rates) over 2-5 commodities whose priced pairs form a forest, entries on '
                 '1-6 distinct days in shuffled order; each observed through bal -X/-V at dates before, on, between and after '
                 'the price days, reg -X/-V, prices, pricedb; non-trivial = the report converts at least one amount through '
@@ -619,9 +734,14 @@ def run(ctx, n_override=None):
     nmemo = max(10, nj // 8)
     queries = []
     journals = []
-    for ji in range(nj + nmemo):
-        memo = ji >= nj
-        j = gen_journal(rng, memo, multi=(not memo and ji % 8 == 3))
+    ninter = max(48, nj // 4)
+    for ji in range(nj + nmemo + ninter):
+        memo = nj <= ji < nj + nmemo
+        inter = ji >= nj + nmemo
+        if inter:
+            j = gen_interleaved(rng, ji - nj - nmemo)
+        else:
+            j = gen_journal(rng, memo, multi=(not memo and ji % 8 == 3))
         j.path = ctx.path('j%d.dat' % ji)
         with open(j.path, 'w') as f:
             f.write(j.text())
@@ -630,6 +750,12 @@ def run(ctx, n_override=None):
         res.count('entries:%d' % len(j.facts()))
         cand = j.cand
         tree = j.comms
+        if inter:
+            for t in j.memo_ts:
+                queries.append(Query(j, 'balmemo', path=j.path, tgt=t, day=j.memo_day))
+            queries.append(Query(j, 'balmemo', path=j.path, tgt=rng.choice(j.memo_ts), day=rng.choice(cand)))
+            queries.append(Query(j, 'balmemo', path=j.path, tgt=rng.choice(j.comms), day=j.memo_day))
+            continue
         if memo:
             queries.append(Query(j, 'balmemo', path=j.path, tgt=j.memo_t, day=j.memo_day))
             other = rng.choice(cand)
